@@ -790,6 +790,7 @@ func (s *Server) netServe() error {
 						client.strictRESP = msg.StrictRESP
 					} else {
 						client.Write([]byte("HTTP/1.1 500 Bad Request\r\nConnection: close\r\n\r\n"))
+						close = true // close connection
 						break
 					}
 					if msg.ConnType == HTTP || msg.ConnType == WebSocket {
